@@ -65,13 +65,17 @@ SHAPES = {
     'csv-old-oddname-twosettings': {'layout': 'old', 'rules': 'csv', 'cfg_name': 'cfg-2025', 'altsettings': True, 'both_settings': True, 'only': ('migrate',)},
     'csv-old-twosettings': {'layout': 'old', 'rules': 'csv', 'altsettings': True, 'both_settings': True, 'only': ('migrate',)},
     'csv-old-oddname':    {'layout': 'old', 'rules': 'csv', 'cfg_name': 'cfg-2025', 'only': ('migrate',)},
+    # ... whose name holds characters that mean something to YAML when they stand unquoted in `merchants_file: <name>/merchants.rules`
+    'csv-old-oddname-hash': {'layout': 'old', 'rules': 'csv', 'cfg_name': 'my config #2', 'only': ('migrate',)},
+    'csv-old-oddname-punct': {'layout': 'old', 'rules': 'csv', 'cfg_name': "Anna's (2025) & co", 'only': ('migrate',)},
     # config/ is a symbolic link to a folder of another name kept elsewhere in the budget (store/realcfg): the budget folder is the parent of the LINK
     'csv-old-symlinked-config': {'layout': 'old', 'rules': 'csv', 'symlink_config': True, 'only': ('migrate', 'init')},
 }
+ODD_NAMES = ('cfg-2025', 'my config #2', "Anna's (2025) & co")
 COMMANDS = ['migrate', 'init', 'update']
 QUICK = [('csv-old', 'migrate'), ('csv-old-bak', 'init'), ('csv-old-output', 'update'), ('csv-new', 'migrate'), ('csv-old-commented-key', 'migrate'),
          ('rules-old-absdata', 'update'), ('csv-old', 'migrate', 'other-filesystem'), ('csv-old-empty-key', 'migrate'), ('csv-old-altsettings', 'migrate'),
-         ('csv-old-commented-key', 'init'), ('rules-old-symlink-data', 'update'), ('csv-old-oddname', 'migrate'), ('csv-old-symlinked-config', 'migrate'), ('csv-old-manybaks', 'migrate'), ('csv-old-explicit-csv', 'migrate'), ('csv-old-explicit-csv', 'init'), ('csv-old-stray-norules', 'migrate'), ('csv-old-oddname-twosettings', 'migrate')]
+         ('csv-old-commented-key', 'init'), ('rules-old-symlink-data', 'update'), ('csv-old-oddname', 'migrate'), ('csv-old-oddname-hash', 'migrate'), ('csv-old-oddname-punct', 'migrate'), ('csv-old-symlinked-config', 'migrate'), ('csv-old-manybaks', 'migrate'), ('csv-old-explicit-csv', 'migrate'), ('csv-old-explicit-csv', 'init'), ('csv-old-stray-norules', 'migrate'), ('csv-old-oddname-twosettings', 'migrate')]
 OTHER_FS = '/dev/shm'        # a file system other than the one holding the system temp directory (if this machine has one)
 
 
@@ -207,8 +211,8 @@ def _classification_default(root, odd):
 def classification(root, _both=False, extra=()):
     """`tally up` as the user would run it from the budget root (auto-detected config dir), fresh process."""
     alt = ['--settings', ALT] if (os.path.exists(os.path.join(root, 'config', ALT)) or os.path.exists(os.path.join(root, 'tally', 'config', ALT))) else []
-    odd = [n for n in ('cfg-2025',) if os.path.isdir(os.path.join(root, n))]      # a config folder tally cannot find by itself is named on the command line
-    cfgd = next((d for d in (os.path.join(root, 'config'), os.path.join(root, 'tally', 'config'), os.path.join(root, 'cfg-2025')) if os.path.isdir(d)), None)
+    odd = [n for n in ODD_NAMES if os.path.isdir(os.path.join(root, n))]      # a config folder tally cannot find by itself is named on the command line
+    cfgd = next((d for d in [os.path.join(root, 'config'), os.path.join(root, 'tally', 'config')] + [os.path.join(root, n) for n in ODD_NAMES] if os.path.isdir(d)), None)
     if not alt and cfgd and os.path.exists(os.path.join(cfgd, ALT)):
         alt = ['--settings', ALT]
     if _both and alt and cfgd and os.path.exists(os.path.join(cfgd, 'settings.yaml')):
